@@ -34,6 +34,10 @@ structure Faults where
   storeFail : Bool := false
   /-- … although the write had been applied (fault raised at hook point "exit") -/
   storeLanded : Bool := false
+  /-- signer-level (not a store fault): every account fetched for the request answers `IsUnlocked()` with an
+      error (`unlockAccount` in services/signer/standard/helpers.go → the pre-check's result is FAILED).  The rule
+      functions below never look at this field. -/
+  lockStateFail : Bool := false
   deriving Repr, Inhabited
 
 def Faults.none : Faults := {}
